@@ -33,6 +33,9 @@ def generate(rng, tier):
         if rng.random() < 0.08:
             cases.append(cc.gen_ti_boundary(rng))
             continue
+        if rng.random() < 0.06:
+            cases.append(cc.gen_traj_kcenters(rng))
+            continue
         cases.append(cc.gen_kcenters(rng) if r < 0.4 else cc.gen_kmedoids(rng) if r < 0.8 else cc.gen_hybrid(rng))
     return cases
 
@@ -67,5 +70,5 @@ def nontrivial(c, out):
 
 
 tags = cc.common_tags
-ESSENTIAL_TAGS = ["more-clusters-than-frames", "kcenters", "kmedoids", "hybrid", "warm-init", "ti", "estimator-form", "start-cold", "start-centers",
+ESSENTIAL_TAGS = ["md-trajectory-input", "more-clusters-than-frames", "kcenters", "kmedoids", "hybrid", "warm-init", "ti", "estimator-form", "start-cold", "start-centers",
                   "start-state", "start-pairs", "explicit-proposals", "random-proposals", "matrix", "euclidean", "manhattan"]
